@@ -98,12 +98,14 @@ CLAIMED["C02"] = dict(
     cat="other", ref="DESIGN.md §3 C02",
     text="Decides the control-flow clause: the block decoder answers only at four sites (too few symbols, all-source, successful GF(2)-only "
          "attempt, full solve); a failed or skipped GF(2)-only attempt always continues to the full HDPC solve on the same K and ISI list with "
-         "the same sparse/dense threshold test; 'not yet' is answered iff fewer than K distinct ESIs were received.",
+         "the same sparse/dense threshold test; 'not yet' is answered iff fewer than K distinct ESIs were received; and (intake rules, shared with C08) "
+         "every packet the iterator yields reaches received_esi.insert before the next iteration - no guard drops a packet unrecorded.",
     note="Rank detection inside the solver (first/second phase) is run-time linear algebra and is not decided.",
     technique="static analysis: enumeration of return sites with their path predicates over rustc MIR")
 CLAIMED["C08"] = dict(
     cat="other", ref="DESIGN.md §3 C08",
-    text="Decides the structural clauses of order/duplication independence: every mutation of decoder state in the accumulation loop is "
+    text="Decides the structural clauses of order/duplication independence: every packet of a batch reaches received_esi.insert (no live path skips "
+         "it) and the loop is left early only when all K source symbols are present; every mutation of decoder state in the accumulation loop is "
          "guarded by received_esi.insert(own ESI) == true and classified by that same ESI; the source counter is incremented exactly where a "
          "slot is filled and written nowhere else; per-block results are written only while None (memoisation is monotone) for the packet's own "
          "block number; decode and add_new_packet perform the same guarded update and decode and get_result build the result identically; "
